@@ -12,6 +12,14 @@ CHECKS = {
     note='Trusted: Python dict/hash semantics. Names restricted to the shapes shipped libraries use.',
     ref='DESIGN.md C19'),
 }
+CHECKS['C10'] = dict(
+    technique='exhaustive name x prefix table + Hypothesis grammar-shaped expression trees against an exact Fraction unit model; conversion round trips; outcome-class oracle for malformed text',
+    text='All 37 documented unit names x 21 prefix choices are compared (value and seven exponents) with a Fraction table transcribed from the defining standards; '
+         'thousands of generated expression trees (products, quotients, juxtaposition, parentheses, integer/negative/decimal powers, generated spacing) are evaluated by both; '
+         'conversions are checked as ratios and there-and-back identities, incompatible ones must raise UnitsError; constructed malformed strings must raise UnitsParseError and '
+         'token mutations must end in a number/quantity or UnitsParseError. Exploration: exhaustive for the name table, sampled for expressions.',
+    note='Trusted: the transcription of the unit table from the standards; repository-documented values for u, eV, molecule, lbf, BTU. Float tolerance 1e-12 (1e-9 with fractional powers).',
+    ref='DESIGN.md C10')
 NOT_YET = {}
 
 def main():
